@@ -9,14 +9,17 @@ EXTENDS Naturals, Sequences, FiniteSets
 CONSTANTS Names, MaxDepth
 
 Keys == UNION {[1..n -> Names] : n \in 1..MaxDepth}
+\* the match table: full match of the level name (std::regex_match), for the names a, b, c, ab
 LevelMatch(l, name) ==
     CASE l = "r:.*" -> TRUE
       [] l = "r:a" -> name = "a"
       [] l = "r:a|b" -> name \in {"a", "b"}
-      [] l = "r:[^a]" -> name # "a"
+      [] l = "r:[^a]" -> name \in {"b", "c"}
       [] l = "r:c" -> name = "c"
+      [] l = "r:a|ab" -> name \in {"a", "ab"}      \* ordered alternation whose first branch is a prefix of the second
+      [] l = "r:a.*?" -> name \in {"a", "ab"}      \* lazy quantifier: still a full match
       [] OTHER -> l = name
-IsRegex(l) == l \in {"r:.*", "r:a", "r:a|b", "r:[^a]", "r:c"}
+IsRegex(l) == l \in {"r:.*", "r:a", "r:a|b", "r:[^a]", "r:c", "r:a|ab", "r:a.*?"}
 \* a key matches a pattern iff it has as many levels and matches level by level
 Matches(k, p) == Len(k) = Len(p) /\ \A i \in 1..Len(k) : LevelMatch(p[i], k[i])
 IsPrefix(a, b) == Len(a) <= Len(b) /\ \A i \in 1..Len(a) : a[i] = b[i]
